@@ -495,7 +495,7 @@ def small_model(ctx, pc, claim, fs_list, infoA, w):
     return m if r == 'sat' else None
 
 
-def report_io(ctx, prog, role, text, s, w, results, pc, claim, fs_list, shape='None', infoA=None, events=None, blocked=True, base_items=1):
+def report_io(ctx, prog, role, text, s, w, results, pc, claim, fs_list, shape='None', infoA=None, events=None, blocked=True, base_items=1, native_oracle=None):
     """replay a process()-level counterexample natively; VIOLATION only if the native observation equals the engine's"""
     m = small_model(ctx, pc, claim, fs_list, infoA or {}, w)
     if m is None:
@@ -511,7 +511,46 @@ def report_io(ctx, prog, role, text, s, w, results, pc, claim, fs_list, shape='N
         return
     expected = engine_obs(prog, s, w, results, nm, base_items=base_items)
     desc = {'frames': [fs.describe(m) for fs in fs_list], 'collector_shape': shape, 'engine_observation': expected}
-    return ctx.report_obs(role, text, desc, test, expected, inject_into='src/io_loop/mod.rs')
+    return ctx.report_obs(role, text, desc, test, expected, inject_into='src/io_loop/mod.rs', native_oracle=native_oracle)
+
+
+def parse_obs(obs):
+    """observation string -> {'res': [...], 'state': str, 'sealed': str, 'earlier': str, 'out': str, 'slots': {name: {'present': str, 'reply': str, 'c0': str, ...}}}"""
+    d = {'slots': {}}
+    for part in re.split(r'\|(?=[A-Za-z0-9]+[={])', obs):
+        mm = re.match(r'^([A-Za-z0-9]+)\{(.*)\}$', part)
+        if mm:
+            fields = {}
+            for kv in re.split(r',(?=[a-z0-9]+=)', mm.group(2)):
+                k, _, v = kv.partition('=')
+                fields[k] = v
+            d['slots'][mm.group(1)] = fields
+        elif '=' in part:
+            k, _, v = part.partition('=')
+            d[k] = v
+    return d
+
+
+def obs_list(v):
+    """'[a,b(c,d),closed]' -> ['a', 'b(c,d)', 'closed'] (top-level commas only)"""
+    v = v.strip()
+    assert v.startswith('[') and v.endswith(']')
+    out, depth, cur, inq = [], 0, '', False
+    for ch in v[1:-1]:
+        if ch == '"':
+            inq = not inq
+        if not inq and ch in '([{':
+            depth += 1
+        if not inq and ch in ')]}':
+            depth -= 1
+        if ch == ',' and depth == 0 and not inq:
+            out.append(cur)
+            cur = ''
+        else:
+            cur += ch
+    if cur:
+        out.append(cur)
+    return out
 
 
 class Validator:
